@@ -92,6 +92,9 @@ func NewRes(ns resource.Namespace, typ resource.Type, id resource.ID, val string
 
 // SpecOf returns the spec of a simulated resource (also through protobuf wrappers).
 func SpecOf(r resource.Resource) *Spec {
+	if resource.IsTombstone(r) {
+		return &Spec{Val: "<tombstone>"}
+	}
 	switch s := r.Spec().(type) {
 	case *Spec:
 		return s
